@@ -102,3 +102,28 @@ def build_main(argv):
 def reset_sources(m):
     """drop the sources main() registered (default pulse) so that the harness can place geometric ones"""
     m.sources = []
+
+
+def build_moved(case, k, d, how='translate'):
+    """the structure of `case`, described with straight wire k displaced and brought back into place by a per-tag
+    transformation option (automatic tags = listing order): 'translate' (described at p - d, --geo-translate=+d),
+    'scale' (described at p / 2 with half the radius, --geo-scale=2), 'rotate' (described rotated by -90 deg about z,
+    --geo-rotate z +90). Returns (model or None, diagnostics); the default source main() registers is dropped."""
+    import numpy as np
+    ws = [dict(w) for w in case['wires']]
+    w = ws[k]
+    if how == 'translate':
+        d = np.array(d, float)
+        w['p1'], w['p2'] = list(np.array(w['p1']) - d), list(np.array(w['p2']) - d)
+        tr = [['translate', 1.0, list(d), k + 1]]
+    elif how == 'scale':
+        w['p1'], w['p2'], w['r'] = list(np.array(w['p1']) / 2), list(np.array(w['p2']) / 2), w['r'] / 2
+        tr = [['scale', 2.0, k + 1]]
+    else:
+        R = np.array([[0., 1., 0.], [-1., 0., 0.], [0., 0., 1.]])     # rotation by -90 degrees about z
+        w['p1'], w['p2'] = list(R @ np.array(w['p1'])), list(R @ np.array(w['p2']))
+        tr = [['rotate', 1.0, [0., 0., 90.], k + 1]]
+    m, diag = build_main(argv(dict(case, wires=ws, transforms=tr), ['--excitation-pulse=1']))
+    if m is not None:
+        reset_sources(m)
+    return m, diag
